@@ -12,7 +12,7 @@ from props import index_common as ic
 MODULES = ['FeVerif.Props.C18']
 
 
-def extract(path, out, via_app=False):
+def extract(path, out, via_app=False, save_index=True):
     """Returns ('ok', count|None, output bytes|None, index bytes|None) or ('raise', text)."""
     for f in (out, os.path.splitext(out)[0] + '.p1i'):
         if os.path.exists(f):
@@ -30,7 +30,7 @@ def extract(path, out, via_app=False):
             count = None
         else:
             from fusion_engine_client.utils.log import extract_fusion_engine_log
-            count = int(extract_fusion_engine_log(path, out, warn_on_gaps=False))
+            count = int(extract_fusion_engine_log(path, out, warn_on_gaps=False, save_index=save_index))
     except SystemExit as e:
         return ('raise', 'SystemExit %s' % e.code)
     except BaseException as e:
@@ -54,7 +54,7 @@ def fresh_index_bytes(out_path):
     return res, b
 
 
-def one_file(ctx, data, kinds, lines, pending, via_app=False):
+def one_file(ctx, data, kinds, lines, pending, via_app=False, save_index=True):
     d = ic.tmpdir()
     path = os.path.join(d, 'c18_input.bin')
     with open(path, 'wb') as f:
@@ -63,8 +63,8 @@ def one_file(ctx, data, kinds, lines, pending, via_app=False):
         if os.path.exists(stale):
             os.remove(stale)
     out = os.path.join(d, 'c18_out.p1log')
-    r1 = extract(path, out, via_app)
-    replay = {'file': data.hex(), 'tokens': kinds, 'via_app': via_app}
+    r1 = extract(path, out, via_app, save_index)
+    replay = {'file': data.hex(), 'tokens': kinds, 'via_app': via_app, 'save_index': save_index}
     if r1[0] == 'raise':
         ctx.violation('C18/extraction-raised', 'extraction raised %s' % r1[1], replay)
         return
@@ -83,6 +83,11 @@ def one_file(ctx, data, kinds, lines, pending, via_app=False):
         for f in (out2, os.path.splitext(out2)[0] + '.p1i', src2, os.path.splitext(src2)[0] + '.p1i'):
             if os.path.exists(f):
                 os.remove(f)
+    if not save_index:
+        if ib is not None:
+            ctx.violation('C18/index-written-although-not-requested', 'save_index=False but a .p1i was written', replay)
+        if ob is not None:
+            fresh = (fresh[0], None)     # no written index to compare
     pending.append((replay, count, ob, ib, fresh, again))
     for f in (path, out, os.path.splitext(out)[0] + '.p1i'):
         if os.path.exists(f):
@@ -113,7 +118,7 @@ def judge(ctx, replay, count, ob, ib, fresh, again, mo):
     if res[1] != offs:
         ctx.violation('C18/fresh-index-of-output-differs', 'fresh index of the output has offsets %s, the builder recorded %s' %
                       (res[1][:10], offs[:10]), replay)
-    if ib != fb:
+    if replay.get('save_index', True) and ib != fb:
         ctx.violation('C18/written-index-not-equivalent-to-fresh',
                       'the .p1i written by the extraction differs from the one a fresh indexing of the output writes '
                       '(%s vs %s bytes)' % (None if ib is None else len(ib), None if fb is None else len(fb)), replay)
@@ -135,20 +140,36 @@ def run(ctx, budget):
         files.append(gen.small_file(rng, rng.choice([1, 2, 4, 8, 14]), 200, 'VVVUUWCTSFJ', pad=rng.choice([0, 7, 40])) + (True,))
     for _ in range(max(3, budget // 5)):
         files.append(gen.stream(rng, rng.choice([3, 8, 20]), 'VVVVUWCTSFHRJDZNG'))       # full-size real classes, P1 times
+    # logs with P1-timed messages, untimed ones, unknown types and CRC-valid messages whose payload does not decode
+    from props import reader_common as rc
+    for _ in range(max(4, budget // 3)):
+        log = rc.make_log(rng, rng.choice([3, 6, 12]), junk=True)
+        seqs = {'n': 0}
+        extra = b''.join(gen.token(rng, k, seqs) + rc.make_log(rng, 1, junk=False, t_start=500.0) for k in rng.choice(['N', 'NU', 'UN', 'NN']))
+        cut = rng.randrange(0, len(log) + 1) if False else len(log)
+        files.append((log[:cut] + extra + rc.make_log(rng, 2, junk=False, t_start=600.25), 'timed'))
+        files.append((rc.make_log(rng, 2, junk=False, t_start=7.5) + gen.token(rng, 'N', seqs) + gen.token(rng, 'U', seqs), 'timedN'))
     # RTCM-like frames and message-free files
     files.append((b'\xd3\x00\x04' + bytes(7) + b'\xd3\x00\x00\x47\xea\x4b', 'rtcm'))
     files.append((b'', 'empty'))
     files.append((bytes(rng.randrange(256) for _ in range(300)), 'junk'))
     files.append((b'\x2e\x31' * 100, 'syncs'))
+    # message-free inputs without an index request
+    files.append((bytes(rng.randrange(1, 256) for _ in range(50)).replace(b'\x2e', b'\x00'), 'junk2'))
+    files.append((b'', 'empty2'))
     # rebound block constants on a few
     for i, f in enumerate(files):
         data, kinds = f[0], f[1]
         small = len(f) > 2      # every message <= 200 bytes: the rebound overlap of 256 bytes is a valid size limit
         ic.rebind(*((64, 256) if i % 3 == 0 and small else (80 * 1024, 16 * 1024)))
-        one_file(ctx, data, kinds, lines, pending, via_app=(i % 7 == 3))
+        one_file(ctx, data, kinds, lines, pending, via_app=(i % 7 == 3), save_index=(i % 4 != 1 or i % 7 == 3))
         for t in kinds if kinds.isalpha() and kinds.isupper() else ['x']:
             ctx.count('token_' + t)
     ic.rebind(80 * 1024, 16 * 1024)
+    # message-free inputs (and a few others) once more without an index request
+    for f in files:
+        if f[1] in ('rtcm', 'empty', 'junk', 'syncs', 'junk2', 'empty2', 'timedN'):
+            one_file(ctx, f[0], f[1], lines, pending, via_app=False, save_index=False)
     outs = ctx.driver(lines)
     for p, mo in zip(pending, outs):
         judge(ctx, *p, mo)
@@ -182,7 +203,8 @@ def check(ctx):
 def replay(ctx, path):
     obj = json.load(open(path))
     lines, pending = [], []
-    one_file(ctx, bytes.fromhex(obj['input']['file']), obj['input'].get('tokens', ''), lines, pending, obj['input'].get('via_app', False))
+    one_file(ctx, bytes.fromhex(obj['input']['file']), obj['input'].get('tokens', ''), lines, pending, obj['input'].get('via_app', False),
+             obj['input'].get('save_index', True))
     outs = ctx.driver(lines)
     for p, mo in zip(pending, outs):
         judge(ctx, *p, mo)
